@@ -297,6 +297,9 @@ func concRounds(req concReq) int {
 
 var mixOps = []string{"tokenize", "parse", "format", "extract", "scan", "lint", "suggest", "span", "metrics", "config"}
 
+// per-goroutine memory of the "metrics" operation (element g is only touched by goroutine g)
+var lastSeenOps, lastSeenBytes []int64
+
 // config files for the "config" operation (written once per process, removed at the end of the mix)
 var cfgFiles []string
 
@@ -431,9 +434,14 @@ func runOp(op string, sql string, gid int) (res string) {
 		}
 		return "span ok"
 	case "metrics":
+		// GetStats is not an atomic snapshot of all counters (and the property does not ask for one); what a
+		// reader may rely on is that a counter it reads twice never goes backwards while nothing resets it
 		s := metrics.GetStats()
-		if s.TokenizeOperations < 0 || s.TokenizeErrors > s.TokenizeOperations {
-			return fmt.Sprintf("inconsistent snapshot ops=%d errs=%d", s.TokenizeOperations, s.TokenizeErrors)
+		if gid < len(lastSeenOps) {
+			if s.TokenizeOperations < lastSeenOps[gid] || s.TotalBytesProcessed < lastSeenBytes[gid] {
+				return fmt.Sprintf("counter went backwards: ops %d -> %d", lastSeenOps[gid], s.TokenizeOperations)
+			}
+			lastSeenOps[gid], lastSeenBytes[gid] = s.TokenizeOperations, s.TotalBytesProcessed
 		}
 		return "ok"
 	}
@@ -459,7 +467,7 @@ func concMix(req concReq) int {
 	makeCfgFiles()
 	defer removeCfgFiles()
 	// sequential table (twice: an operation that is not deterministic alone is excluded and reported)
-	type delta struct{ ops, errs, bytes, mn, mx int64 }
+	type delta struct{ ops, errs, bytes, mn, mx, pg, pp int64 }
 	table := map[string][]string{}
 	deltas := map[string][]delta{}
 	var nondet []string
@@ -471,7 +479,7 @@ func concMix(req concReq) int {
 			resetAll()
 			r1 := runOp(op, in, 0)
 			s := metrics.GetStats()
-			deltas[op][i] = delta{s.TokenizeOperations, s.TokenizeErrors, s.TotalBytesProcessed, s.MinQuerySize, s.MaxQuerySize}
+			deltas[op][i] = delta{s.TokenizeOperations, s.TokenizeErrors, s.TotalBytesProcessed, s.MinQuerySize, s.MaxQuerySize, s.PoolGets, s.PoolPuts}
 			r2 := runOp(op, in, 0)
 			table[op][i] = r1
 			if r1 != r2 {
@@ -483,13 +491,14 @@ func concMix(req concReq) int {
 		}
 	}
 	resetAll()
+	lastSeenOps, lastSeenBytes = make([]int64, n), make([]int64, n)
 	gerrors.ClearSuggestionCache() // the concurrent phase starts with cold caches, like the sequential one did
 	config.ClearConfigCache()
 	var mu sync.Mutex
 	var mism []mixMismatch
 	nmis := 0
 	var total int64
-	var wantOps, wantErrs, wantBytes int64
+	var wantOps, wantErrs, wantBytes, wantPG, wantPP int64
 	wantMin, wantMax := int64(-1), int64(0)
 	var wg sync.WaitGroup
 	start := make(chan struct{})
@@ -500,7 +509,7 @@ func concMix(req concReq) int {
 		go func(g int) {
 			defer wg.Done()
 			rg := &rng{s: req.Seed*1000003 + uint64(g)*7919 + 1}
-			var lo, le, lb int64
+			var lo, le, lb, lpg, lpp int64
 			lmin, lmax := int64(-1), int64(0)
 			<-start
 			for j := 0; j < k; j++ {
@@ -512,6 +521,8 @@ func concMix(req concReq) int {
 				lo += d.ops
 				le += d.errs
 				lb += d.bytes
+				lpg += d.pg
+				lpp += d.pp
 				if d.ops > 0 {
 					if lmin == -1 || d.mn < lmin {
 						lmin = d.mn
@@ -534,6 +545,8 @@ func concMix(req concReq) int {
 			wantOps += lo
 			wantErrs += le
 			wantBytes += lb
+			wantPG += lpg
+			wantPP += lpp
 			if lmin != -1 && (wantMin == -1 || lmin < wantMin) {
 				wantMin = lmin
 			}
@@ -553,9 +566,9 @@ func concMix(req concReq) int {
 	}
 	got := map[string]int64{"tokenizeOperations": s.TokenizeOperations, "tokenizeErrors": s.TokenizeErrors,
 		"totalQueryBytes": s.TotalBytesProcessed, "minQuerySize": s.MinQuerySize, "maxQuerySize": s.MaxQuerySize,
-		"errorsByType": ebt, "poolBalance": s.PoolBalance}
+		"errorsByType": ebt, "poolGets": s.PoolGets, "poolPuts": s.PoolPuts}
 	want := map[string]int64{"tokenizeOperations": wantOps, "tokenizeErrors": wantErrs, "totalQueryBytes": wantBytes,
-		"minQuerySize": wantMin, "maxQuerySize": wantMax, "errorsByType": wantErrs, "poolBalance": 0}
+		"minQuerySize": wantMin, "maxQuerySize": wantMax, "errorsByType": wantErrs, "poolGets": wantPG, "poolPuts": wantPP}
 	var badTotals []string
 	for kf, w := range want {
 		if got[kf] != w {
